@@ -26,7 +26,7 @@ KINDS = ("noise", "tones", "ar", "trend", "int")
 def cls_case(draw):
     row = draw(st.sampled_from(est.ROWS))
     cplx = draw(st.booleans())
-    x = draw(gen.signal(16, 64, "complex" if cplx else "real", kinds=KINDS, noise_levels=(0.1, 1.0)))
+    x = draw(gen.signal(n=draw(gen.lengths(16, 64)), dtype="complex" if cplx else "real", kinds=KINDS, noise_levels=(0.1, 1.0)))
     x = est.sanitize(row, x)
     N = x["n"]
     p = draw(est.params(row, N, cplx))
